@@ -17,6 +17,7 @@
 #include <stdio.h>
 #include <stdlib.h>
 #include <string.h>
+#include <time.h>
 #include <unistd.h>
 #include <vnadata.h>
 #include <vnaproperty.h>
@@ -90,14 +91,43 @@ static int same_c(double complex a, double complex b)
 }
 
 /*
+ * after a save/re-load: finite values must come back bit-equal; a value
+ * with an infinite or NaN part only has to stay non-finite (the loaders
+ * form re + I*im, which C evaluates to NaN+inf*I for an infinite im)
+ */
+static int same_rt(double complex a, double complex b)
+{
+    if (isfinite(creal(a)) && isfinite(cimag(a)))
+	return creal(a) == creal(b) && cimag(a) == cimag(b);
+    return !(isfinite(creal(b)) && isfinite(cimag(b)));
+}
+
+static long g_live0;		/* live blocks at exec_begin() */
+
+static unsigned long exec_begin(void)
+{
+    unsigned long m = vf_exec_begin();
+    g_live0 = vf_live_total();
+    return m;
+}
+
+/*
  * leak check with a deterministic signature (the frame's vf_exec_end picks
  * the first site in hash order, which depends on addresses)
  */
 static void exec_end(vf_result *r, unsigned long mark, const char *who)
 {
     char sites[400], best[120] = "";
-    int n = vf_leak_report(mark, sites, sizeof(sites));
+    int n;
 
+    /*
+     * The frame's block table only ever grows and vf_leak_report scans all
+     * of it, so ask for the report only when the O(1) live-block count says
+     * that something is still allocated.
+     */
+    if (vf_live_total() == g_live0)
+	return;
+    n = vf_leak_report(mark, sites, sizeof(sites));
     if (n <= 0)
 	return;
     if (strstr(sites, "libyaml") != NULL) {
@@ -250,7 +280,7 @@ static int vd_touch(vf_result *r, const vnadata_t *v, const char *who)
 }
 
 static int vd_equal(vf_result *r, const vnadata_t *a, const vnadata_t *b,
-	const char *sig, const char *what)
+	const char *sig, const char *what, int rt)
 {
     int type = (int)vnadata_get_type(a);
     int rows = vnadata_get_rows(a), cols = vnadata_get_columns(a);
@@ -277,7 +307,7 @@ static int vd_equal(vf_result *r, const vnadata_t *a, const vnadata_t *b,
 	    for (int j = 0; j < cols; ++j) {
 		double complex x = vnadata_get_cell(a, f, i, j);
 		double complex y = vnadata_get_cell(b, f, i, j);
-		if (!same_c(x, y)) {
+		if (!(rt ? same_rt(x, y) : same_c(x, y))) {
 		    vf_fail(r, sig, "%s: cell[%d][%d][%d] %.17g%+.17gj vs "
 			    "%.17g%+.17gj; input \"%s\"", what, f, i, j,
 			    creal(x), cimag(x), creal(y), cimag(y), g_inesc);
@@ -287,7 +317,7 @@ static int vd_equal(vf_result *r, const vnadata_t *a, const vnadata_t *b,
 	}
 	for (int p = 0; p < ports; ++p) {
 	    double complex x = vd_z0(a, f, p), y = vd_z0(b, f, p);
-	    if (!same_c(x, y)) {
+	    if (!(rt ? same_rt(x, y) : same_c(x, y))) {
 		vf_fail(r, sig, "%s: z0 of port %d at frequency %d "
 			"%.17g%+.17gj vs %.17g%+.17gj; input \"%s\"", what,
 			p, f, creal(x), cimag(x), creal(y), cimag(y), g_inesc);
@@ -341,7 +371,7 @@ static void run_vnadata(ctx_t *c, const char *b, int n)
     vf_errlog_reset(&la);
     vf_errlog_reset(&lb);
     vf_errlog_reset(&lc);
-    mark = vf_exec_begin();
+    mark = exec_begin();
 
     vnadata_t *A = vnadata_alloc(ERRFN, &la);
     vnadata_t *B = vd_populated(&lb);
@@ -405,7 +435,7 @@ static void run_vnadata(ctx_t *c, const char *b, int n)
 		vd_touch(r, B, "loaded object (fload)") &&
 		vd_equal(r, A, B, "dest-dependent:vnadata_load",
 		    "content after loading the same file depends on what the "
-		    "destination held before (fresh vs used)")) {
+		    "destination held before (fresh vs used)", 0)) {
 	    int type = (int)vnadata_get_type(A);
 	    if (type == VPT_UNDEF) {
 		vf_fail(r, "shape:vnadata", "load succeeded but the object "
@@ -430,7 +460,7 @@ static void run_vnadata(ctx_t *c, const char *b, int n)
 			    "\"%s\"", lc.count > 0 ? lc.msg[0] : "?", g_inesc);
 		} else {
 		    (void)vd_equal(r, A, D, "roundtrip:vnadata",
-			    "save/re-load changed the content");
+			    "save/re-load changed the content", 1);
 		}
 		r->transitions += 2;
 		vnadata_free(D);
@@ -657,7 +687,7 @@ static int vc_equal(vf_result *r, vnacal_t *a, vnacal_t *b)
 		x->cal_columns != y->cal_columns ||
 		x->cal_frequencies != y->cal_frequencies ||
 		x->cal_error_terms != y->cal_error_terms ||
-		!same_c(x->cal_z0, y->cal_z0)) {
+		!same_rt(x->cal_z0, y->cal_z0)) {
 	    vf_fail(r, sig, "save/re-load changed name/type/dimensions/z0 of "
 		    "calibration %d (\"%s\" %s %dx%d f=%d z0=%g%+gj -> \"%s\" "
 		    "%s %dx%d f=%d z0=%g%+gj); input \"%s\"", ci,
@@ -681,7 +711,7 @@ static int vc_equal(vf_result *r, vnacal_t *a, vnacal_t *b)
 	    for (int t = 0; t < x->cal_error_terms; ++t) {
 		double complex u = x->cal_error_term_vector[t][f];
 		double complex v = y->cal_error_term_vector[t][f];
-		if (!same_c(u, v)) {
+		if (!same_rt(u, v)) {
 		    vf_fail(r, sig, "save/re-load changed error term %d at "
 			    "frequency %d of calibration %d: %.17g%+.17gj -> "
 			    "%.17g%+.17gj; input \"%s\"", t, f, ci, creal(u),
@@ -716,7 +746,7 @@ static void run_vnacal(ctx_t *c, const char *b, int n)
     }
     vf_errlog_reset(&la);
     vf_errlog_reset(&lb);
-    mark = vf_exec_begin();
+    mark = exec_begin();
     errno = 0;
     vnacal_t *vcp = vnacal_load(path, ERRFN, &la);
     int e = errno;
@@ -795,7 +825,7 @@ static void run_yaml(ctx_t *c, const char *b, int n)
     vf_errlog_reset(&la);
     vf_errlog_reset(&lb);
     vf_errlog_reset(&lc);
-    mark = vf_exec_begin();
+    mark = exec_begin();
 
     errno = 0;
     int rva = vnaproperty_import_yaml_from_string(&ra, text, ERRFN, &la);
@@ -1132,6 +1162,9 @@ static void run(int tier, long idx, vf_result *r)
     build_cases(tier);
     const kase_t *k = &cases[idx];
     ctx_t c;
+    struct timespec t0, t1;
+
+    clock_gettime(CLOCK_MONOTONIC, &t0);
 
     memset(&c, 0, sizeof(c));
     c.r = r;
@@ -1185,6 +1218,15 @@ static void run(int tier, long idx, vf_result *r)
 	}
 	break;
     }
+    if (getenv("C09_TIMING") != NULL) {
+	clock_gettime(CLOCK_MONOTONIC, &t1);
+	double dt = (double)(t1.tv_sec - t0.tv_sec) +
+	    1e-9 * (double)(t1.tv_nsec - t0.tv_nsec);
+	if (dt > 0.1)
+	    fprintf(stdout, "C09_TIMING case %ld type %d seed %d kind %d: "
+		    "%ld inputs %.3f s\n", idx, k->type, k->seed, k->kind,
+		    c.inputs, dt);
+    }
     r->states = c.inputs;
     r->nontrivial = c.inputs > 0;
     {
@@ -1222,5 +1264,5 @@ vf_driver vf_drv = {
     .count = count,
     .run = run,
     .init = init,
-    .timeout_s = 5.0,
+    .timeout_s = 10.0,
 };
